@@ -8,6 +8,8 @@ PROPERTY = 'C11'
 def harnesses(tier):
     if tier == 'quick':
         return [
+            {'name': 'assign-seq3-N3-W1', 'fn': graph.h_step,
+             'cfg': {'prop': 'C11', 'N': 3, 'nW': 1, 'seqlen': 3, 'links': False, 'ops': ['set_children']}},
             {'name': 'earlier-view-N2', 'fn': graph.h_stale_view, 'cfg': {'N': 2, 'nW': 1, 'props': ['C11'], 'ops1': ['ch_remove', 'wbs_remove', 'set_parent'], 'ops2': ['ch_sort', 'ch_reorder', 'ch_insert', 'ch_move', 'ch_remove']}},
             {'name': 'attach-N3-W2', 'fn': graph.h_step,
              'cfg': {'prop': 'C11', 'N': 3, 'nW': 2, 'seqlen': 2, 'ops': graph.ATTACH_OPS}},
